@@ -288,9 +288,48 @@ MFDIR = {"inside": "build", "inside-root": ".", "sibling": "build", "parent": "b
          "ownmod": "magefiles"}
 
 
-def render_project(proj, repo, probe_go):
-    """{relative path: text} of the whole project directory"""
+FS_SHAPES = ["symlink-same", "symlink-elsewhere", "symlink-outside", "symlink-chain", "hardlink", "perm0400",
+             "name:with-dash", "name:dot.name", "name:UPPER", "name:sp ace", "name:uni_\u00e9", "name:plus+eq="]
+
+
+def _place(files, ops, dirrel, base, shape, text, tag):
+    """put the source file <dirrel>/<base>.go with the given file-system shape into files / ops.
+    ops: ("symlink", link rel, target) | ("hardlink", rel, source rel) | ("chmod", rel, mode) | ("mkdir", rel);
+    a path starting with "@outside/" lies in the run's directory outside every module."""
+    j = lambda *a: "/".join(x for x in a if x not in (".", ""))
+    go = j(dirrel, base + ".go")
+    if shape in (None, "regular") or shape.startswith("name:"):
+        files[go] = text
+    elif shape == "perm0400":
+        files[go] = text
+        ops.append(("chmod", go, 0o400))
+    elif shape == "symlink-same":
+        files[j(dirrel, base + ".src")] = text
+        ops.append(("symlink", go, base + ".src"))
+    elif shape == "symlink-elsewhere":
+        tgt = j("linked", tag + "_" + base + ".src")
+        files[tgt] = text
+        ops.append(("symlink", go, "/".join([".."] * len([x for x in dirrel.split("/") if x not in (".", "")]) + [tgt])))
+    elif shape == "symlink-outside":
+        tgt = "@outside/" + tag + "_" + base + ".src"
+        files[tgt] = text
+        ops.append(("symlink", go, tgt))
+    elif shape == "symlink-chain":
+        files[j(dirrel, base + ".l2")] = text
+        ops.append(("symlink", j(dirrel, base + ".l1"), base + ".l2"))
+        ops.append(("symlink", go, base + ".l1"))
+    elif shape == "hardlink":
+        files[j(dirrel, base + ".src")] = text
+        ops.append(("hardlink", go, j(dirrel, base + ".src")))
+    else:
+        raise ValueError(shape)
+
+
+def render_project(proj, repo, probe_go, ops=None):
+    """{relative path: text} of the whole project directory; ops (a list) receives the file-system
+    operations to be done after the files are written (links, modes, directories)"""
     files = {}
+    ops = ops if ops is not None else []
     mfdir = MFDIR[proj["layout"]]
     modroot = "magefiles" if proj["layout"] == "ownmod" else "."
     j = lambda *a: "/".join(x for x in a if x not in (".", ""))
@@ -302,9 +341,16 @@ def render_project(proj, repo, probe_go):
     for pk in proj["packages"]:
         files[j(modroot, pk["dir"], pk["pkg"] + ".go")] = render_package(proj, pk)
         for part in sorted({f["file"] for f in pk["funcs"] if f.get("file")}):
-            files[j(modroot, pk["dir"], part + ".go")] = render_extra_file(proj, pk, part)
+            shape = next((f.get("shape") for f in pk["funcs"] if f.get("file") == part and f.get("shape")), None)
+            _place(files, ops, j(modroot, pk["dir"]), part, shape, render_extra_file(proj, pk, part), proj["name"] + "_" + pk["dir"].replace("/", "_"))
+        for c in pk.get("clutter", []):
+            kind, nm = c.split(":", 1)
+            if kind == "dir":                      # a directory with a .go name: ignored by everyone
+                ops.append(("mkdir", j(modroot, pk["dir"], nm)))
+            elif kind == "dangling":               # a symlink to nowhere with a .go name
+                ops.append(("symlink", j(modroot, pk["dir"], nm), "nowhere-" + nm))
     for i, f in enumerate(proj["files"]):
-        files[j(mfdir, f["name"])] = render_magefile(proj, f, i == 0)
+        _place(files, ops, mfdir, f["name"][:-3], (proj.get("mf_shapes") or {}).get(f["name"]), render_magefile(proj, f, i == 0), proj["name"] + "_mf")
     if proj["layout"] in ("sibling",):
         files["other/doc.go"] = "// Package other is a sibling directory.\npackage other\n"
     return files
@@ -375,6 +421,23 @@ def add_platform_files(rng, pk, host_os, host_arch):
             f["build"] = build
         pk["funcs"].append(f)
     pk["shape"] = pk.get("shape", "?") + "+platform"
+    return pk
+
+
+def add_fs_shapes(rng, pk, shapes):
+    """further targets of the package in source files of the given file-system shapes (one function
+    per file), a directory with a .go name, and a file the go tool ignores by its name"""
+    used = {f["name"] for f in pk["funcs"]}
+    free = [n for n in FUNC_NAMES if n not in used]
+    rng.shuffle(free)
+    for k, (shape, nm) in enumerate(zip(shapes, free)):
+        base = shape.split(":", 1)[1] if shape.startswith("name:") else "fs%d_%s" % (k, shape.replace("-", "_"))
+        pk["funcs"].append({"name": nm, "sig": rng.choice(SIGS), "file": base, "shape": shape})
+    if rng.random() < 0.6:
+        pk.setdefault("clutter", []).append("dir:x.go")
+    if rng.random() < 0.5 and len(free) > len(shapes):
+        pk["funcs"].append({"name": free[len(shapes)], "sig": "plain", "file": rng.choice(["_under", ".hidden"]), "foreign": True})
+    pk["shape"] = pk.get("shape", "?") + "+fs"
     return pk
 
 
